@@ -3,6 +3,7 @@ import LyModel.Valid.XpLemmas
 import LyModel.Valid.XpWitness
 import LyModel.Valid.XpTag
 import LyModel.Valid.XpCfg
+import LyModel.Valid.XpWhenSimple
 /-!
 # C02 — the XPath-dependent constraints: `must`, leafref `require-instance` (and `when`, modelled, see the end)
 
@@ -145,9 +146,35 @@ example : (∀ e ∈ (validateX Xxp Cxp {} tXpBadMust).errs, e.kind ∈ violatio
 
 `when` resolution is MODELLED (LyModel/Valid/XpWhen.lean: `whenPhase` — the `do … while` loop of `lyd_validate_unres` over
 `lyd_validate_unres_when`, set processed from the end, `LYD_WHEN_TRUE`, implicit nodes with a false `when` auto-deleted, explicit ones
-`NoWhen`, `LY_EINCOMPLETE` deferral; termination: `rounds_fuel`) and compared with libyang by the check, but not part of the theorems:
+`NoWhen`, `LY_EINCOMPLETE` deferral; termination: `rounds_fuel`) and compared with libyang by the check (family `fam_xpath`, mutation
+`flip-when`, directed instances `when-implicit`).  Proved about it so far: what it can log and what it can change.
 -- OPEN: `validate_ok_iff_valid_xpath` with `when` (the specification of RFC 7950 §7.21.5 — a node whose `when` is false must not exist, its
 -- defaults are not in use, the accessible tree of every other expression does not contain it — against the fixpoint loop).
 -/
+
+/-- **`when_errors_kind`** (every schema, `when` table, option set and tree): the `when` phase logs only `NoWhen` errors ("When
+condition … not satisfied", on explicit nodes) and `Other` (a condition that cannot be evaluated) -/
+theorem when_errors_kind (X : SchemaX) (C : XCons) (o : VOpts) (T : List DNode) :
+    ∀ e ∈ (whenPhase X C o T).2.errs, e.kind = .noWhen ∨ e.kind = .xpErr :=
+  whenPhase_kinds X C o T
+
+/-- **`when_keeps_shape`**: unless it records a deletion in the change set (the auto-deletion of an implicit node whose `when` is
+false), the `when` phase changes nothing but flags (`LYD_WHEN_TRUE`): the tree keeps its nodes, values and order, so the document the
+leafref and `must` phases evaluate on is the one before the phase -/
+theorem when_keeps_shape (X : SchemaX) (C : XCons) (o : VOpts) (T : List DNode) (h : (whenPhase X C o T).2.evs = []) :
+    shapeL (whenPhase X C o T).1 = shapeL T :=
+  whenPhase_shape X C o T h
+
+/-- the witness constraints with a `when` on `b` (`when "../a = 'x'"`) and on the default-bearing leaf `d` -/
+def CxpW : XCons := { whens := [(2, bytesOfString "../a = 'x'"), (3, bytesOfString "../a = 'x'")] }
+
+/-- non-vacuity: `a = y` with an explicit `b`: `NoWhen` on `b`, and the implicit `d` is auto-deleted (one delete event: the hypothesis of
+`when_keeps_shape` fails and the tree loses a node); `a = x`: nothing logged, no event, same shape -/
+example : ((validateX Xxp CxpW {} tXpBadMust).errs.map (·.kind)) = [.noWhen] ∧
+    (whenPhase Xxp CxpW {} (preFinal Xxp {} tXpBadMust)).2.evs.length = 1 ∧
+    (validateX Xxp CxpW {} tXpOk).errs = [] ∧ (whenPhase Xxp CxpW {} (preFinal Xxp {} tXpOk)).2.evs = [] ∧
+    shapeL (whenPhase Xxp CxpW {} (preFinal Xxp {} tXpOk)).1 = shapeL (preFinal Xxp {} tXpOk) := by
+  refine ⟨by decide +kernel, by decide +kernel, by decide +kernel, by decide +kernel, ?_⟩
+  exact when_keeps_shape Xxp CxpW {} _ (by decide +kernel)
 
 end LyModel.Props.C02
